@@ -206,6 +206,22 @@ def run_step(step, heap):
         return x.norm()
     if op == "item":
         return x.item()
+    if op == "convert":
+        return {"float": float, "complex": complex, "int": int, "bool": bool}[a["to"]](x)
+    if op == "tensordot_s":
+        s_ = untuple(a["s"])
+        if a.get("np"):
+            s_ = np.asarray(s_)
+        return sr.tensordot(x, s_)
+    if op == "get_params":
+        return tuple(np.asarray(b) for b in x.get_params().values()) or None
+    if op == "set_params":
+        x.set_params({s_: b * a["f"] for s_, b in x.get_params().items()})
+        return x
+    if op == "apply_to_arrays":
+        f = a["f"]
+        x.apply_to_arrays(lambda b: b * f)
+        return x
     if op == "to_dense":
         return x.to_dense()
     if op == "allclose":
@@ -323,6 +339,7 @@ def is_inplace(step):
 INPLACE_OPS = {
     "iadd", "isub", "imul", "idiv", "ipow", "imul_s", "idiv_s", "iadd_s",
     "isub_s", "ipow_s", "fill_missing_blocks", "drop_missing_blocks",
+    "set_params", "apply_to_arrays",
 }
 
 # in-place step -> its out-of-place twin (same args)
@@ -459,7 +476,11 @@ def _scalar(rng, cplx=False):
 
 
 def g_new(ctx, heap):
-    return [{"op": "new", "in": [], "out": [ctx.fresh()], "a": {"spec": ctx.new_spec()}}]
+    spec = ctx.new_spec()
+    r = ctx.rng.random()
+    if r < 0.4 and getattr(ctx, "constructors", True):
+        spec["via"] = ctx.rng.choice(["random", "from_fill_fn", "from_blocks", "from_dense"])
+    return [{"op": "new", "in": [], "out": [ctx.fresh()], "a": {"spec": spec}}]
 
 
 def _is_bool(v):
@@ -1095,6 +1116,49 @@ def g_boolreduce(ctx, heap):
              "a": {"style": ctx.style("func")}}]
 
 
+def g_convert(ctx, heap):
+    n = _pick(ctx, heap, "AF", pred=lambda v: v.ndim == 0 and v.num_blocks == 1)
+    if n is None:
+        return None
+    cplx = "complex" in _dtype_of(heap[n])
+    to = ctx.rng.choice(["complex", "bool"] + ([] if cplx else ["float", "float"]))
+    return [{"op": "convert", "in": [n], "out": [ctx.fresh()], "a": {"to": to}}]
+
+
+def g_tdot_scalar(ctx, heap):
+    n = _pick(ctx, heap, "AF")
+    if n is None:
+        return None
+    return [{"op": "tensordot_s", "in": [n], "out": [ctx.fresh()],
+             "a": {"s": _scalar(ctx.rng), "np": ctx.rng.random() < 0.5}}]
+
+
+def g_div_arrays(ctx, heap):
+    """x / y for arrays whose every axis has size one."""
+    rng = ctx.rng
+    n = _pick(ctx, heap, "AF", pred=lambda v: all(d == 1 for d in v.shape) and v.num_blocks == 1)
+    if n is None:
+        return None
+    x = heap[n]
+    nb = ctx.fresh()
+    steps = [{"op": "new", "in": [], "out": [nb], "a": {"spec": _same_shape_partner(ctx, x, True)}}]
+    nb = _lazy_signs(ctx, nb, kind_of(x), steps) if x.ndim else nb
+    steps.append({"op": "div", "in": [n, nb], "out": [ctx.fresh()], "a": {}})
+    return steps
+
+
+def g_params(ctx, heap):
+    rng = ctx.rng
+    n = _pick(ctx, heap, "AFV", pred=lambda v: v.num_blocks > 0)
+    if n is None:
+        return None
+    r = rng.random()
+    if r < 0.4 or ctx.p_inplace <= 0:
+        return [{"op": "get_params", "in": [n], "out": [], "a": {}}]
+    op = "set_params" if r < 0.7 else "apply_to_arrays"
+    return [{"op": op, "in": [n], "out": [n], "a": {"f": rng.choice([2.0, -1.0, 0.5])}}]
+
+
 def g_to_dense(ctx, heap):
     n = _pick(ctx, heap, "AFV", pred=lambda v: v.num_blocks > 0, allow_bool=True)
     if n is None:
@@ -1286,6 +1350,10 @@ GENERATORS = {
     "item": (g_item, 1),
     "to_dense": (g_to_dense, 1),
     "boolreduce": (g_boolreduce, 1),
+    "convert": (g_convert, 1),
+    "tdot_scalar": (g_tdot_scalar, 1),
+    "div_arrays": (g_div_arrays, 1),
+    "params": (g_params, 1),
     "allclose": (g_allclose, 1),
     "qr": (g_qr, 2),
     "svd": (g_svd, 2),
